@@ -879,10 +879,10 @@ def run_case(case):
 
     Comparison rule.  `e2e.same(got, want, sort_rows=p.unordered or not p.order_ok, drop_index=p.noindex)`:
     rows are compared as a multiset where dask-expr leaves the order unspecified, index labels are ignored
-    where it leaves them unspecified.  Programs with `order_ok == False` apply an order- or label-sensitive
-    operator (cumsum/shift/diff/head/tail/reset_index) after an operator whose row order or labels are
-    unspecified (shuffle, set_index, merge, sort with ties): their *values* legitimately depend on the plan,
-    so only "both succeed" and "same kind and column labels" are checked for them.
+    where it leaves them unspecified.  Programs that are `plan_dependent` apply an order- or label-sensitive
+    operator (cumsum/shift/diff/head/tail/reset_index, drop_duplicates keep-first) after an operator whose row
+    order or labels are unspecified (shuffle, set_index, merge, sort with ties): their *values* legitimately
+    depend on the plan, so only "both succeed" and "same kind and column labels" are checked for them.
     An optimized plan that raises while the unoptimized one succeeds is a failure; if the unoptimized plan
     raises too (or the query cannot be built) the case is unsupported, not a failure.
 
@@ -929,7 +929,7 @@ def run_case(case):
             res["stages"] += 1
             if un_err is not None:
                 continue  # the optimizer rescued a query whose unoptimized plan fails: allowed
-            if p.order_ok:
+            if not plan_dependent(p):
                 ok = e2e.same(got, want, sort_rows=p.unordered, drop_index=p.noindex)
             else:
                 ok = _columns_of(got) == _columns_of(want)
@@ -941,6 +941,25 @@ def run_case(case):
         if un_err is not None:
             res["status"] = "rescued"
     return res
+
+
+_UNORDERED_OPS = {o.name for o in programs.UNARY if o.unordered}
+
+
+def plan_dependent(p):
+    """The values (not only the row order) of the program's result legitimately depend on the plan:
+      * `order_ok == False` (harness/programs.py): an order-/label-sensitive operator after an operator with
+        unspecified row order or labels;
+      * `drop_duplicates(subset=…)` (keeps the FIRST row of each key) after an operator with unspecified row
+        order: which row survives depends on the order inside the partition (observed with the disk shuffle,
+        whose partition order is the order in which the writer tasks happened to run)."""
+    if not p.order_ok:
+        return True
+    chain = p.name.split("/")[:-1]
+    for i, nm in enumerate(chain):
+        if nm == "dropdup_b" and any(c in _UNORDERED_OPS for c in chain[:i]):
+            return True
+    return False
 
 
 def _run_case_safe(case):
@@ -1117,7 +1136,7 @@ def fam_firings(ctx):
 
     f = Family("rule_firings_sound[_simplify_down/_simplify_up of all live classes]")
     names = [n for n in MUST if n in by_name()] + [p.name for p in extra_programs()]
-    names = [n for n in names if by_name()[n].order_ok][: (70 if ctx.quick else 400)]
+    names = [n for n in names if not plan_dependent(by_name()[n])][: (70 if ctx.quick else 400)]
     inputs, code, model = [], [], []
     seen = set()
     for n in names:
